@@ -394,6 +394,9 @@ pub fn generate_specs(prop: &dyn Prop, tier: Tier) -> Vec<(&'static str, Spec)> 
     for (pi, (profile, n)) in prop.profiles(tier).into_iter().enumerate() {
         let mut r = runner(seed(), &format!("{}-specs-{}-{}", prop.id(), pi, profile.name));
         let strat = oracle::gen::spec_strategy(&profile);
+        // Engine A is cheap (≈10^6 cases/s, ≈40 lexers compiled per second): the quick tier runs
+        // three times the base number of definitions.
+        let n = if tier == Tier::Quick { n * 3 } else { n };
         for _ in 0..n {
             let s = sample(&strat, &mut r);
             let s = prop.adjust_spec(s, &mut r);
@@ -824,7 +827,11 @@ pub fn run_collect(prop: &dyn Prop, tier: Tier) -> (Evidence, i32) {
                         None => continue,
                     };
                     let mut r = runner(seed(), &format!("{}-cases-{}", prop.id(), si));
+                    let spec_t0 = std::time::Instant::now();
                     let cases = prop.cases(&ctx, &mut comp, &mut r, tier);
+                    if std::env::var("VERIF_DEBUG").is_ok() {
+                        eprintln!("[debug] spec {} ({} cases generated in {:.1}s)", si, cases.len(), spec_t0.elapsed().as_secs_f64());
+                    }
                     st.specs_run += 1;
                     let mut violated = false;
                     let eval_group = |server: &mut Server, comp: &mut Compiled, base: &Case| -> (Vec<Case>, Vec<ModelOut>, Vec<Outcome>, Verdict) {
